@@ -106,7 +106,11 @@ class Types:
         if idx is None:
             return []
         key = (node.lineno, node.col_offset, node.end_lineno, node.end_col_offset)
-        return idx.get(key, [])
+        found = idx.get(key)
+        if not found and node.col_offset > 0:
+            # expressions inside an f-string: mypy records the start column one to the left of ast's (the '{')
+            found = idx.get((node.lineno, node.col_offset - 1, node.end_lineno, node.end_col_offset))
+        return found or []
 
     _KIND = {
         ast.Call: "CallExpr", ast.Name: "NameExpr", ast.Attribute: "MemberExpr",
